@@ -132,7 +132,7 @@ def gen_k_case(rng, method, kind):
     D = rng.choice([1, 2, 2, 3, 3, 4, 5, 6, 9, 13])
     if kind == "large":
         # beyond the sizes at which Eigen switches from its small-matrix paths to the blocked / vectorised kernels
-        N, D = rng.choice([(32, 17), (32, 33), (64, 24), (64, 17)])
+        N, D = rng.choice([(32, 17), (32, 24), (64, 17), (16, 33)])
     sh = rng.choice([0, 0, 1, 2])
     off = [Fraction(rng.choice([0, 0, 0, 3, -5, 16]), 1) for _ in range(D)]
     X = [[Fraction(rng.randint(-8, 8), 2 ** sh) + off[f] for _ in range(N)] for f in range(D)]   # feature major
@@ -1224,7 +1224,7 @@ def run(ctx):
     ctx.finish(
         evaluations=n, distinct_nontrivial=len(distinct),
         rule="K: exact dyadic cases per method x generator kind (plain, correlated features, symmetric W, "
-             "alignment-like W with zero row/column sums, empty W, zero X, malformed index, large = N 32/64 and D 17..33), every case a second time "
+             "alignment-like W with zero row/column sums, empty W, zero X, malformed index, large = N 16..64 and D 17..33), every case a second time "
              "with W/L, the degree vector and the features multiplied by powers of two in 2^-70..2^70 (+scaled); "
              "non-trivial = N>=2, D>=2, nnz>=1, distinct by hash. G: random pencils whose two triangles hold different symmetric "
              "matrices. E: public-API runs (latent 3-d structure, correlated noise, offsets 0..20, D 2..8 quick / "
